@@ -325,14 +325,27 @@ class LeapfrogRecorder:
         self.calls = []
         self.n = 0
 
-    def __call__(self, t, r, n):
-        t0, r0 = np.array(t, dtype=float, copy=True), np.array(r, dtype=float, copy=True)
-        out = self.inner(t, r, n)
+    def __call__(self, *args, **kw):
+        # the signature of this (internal) method is not part of any property: (t, r, n_steps) on the pinned tree; a
+        # refactor may pass more (e.g. a cached gradient).  Position and momentum are taken to be the first two arrays, the
+        # step count the last integer; anything else is passed through untouched and the call is recorded as far as it
+        # can be interpreted (refine_hmc gives up on `None` fields, it never alarms on them).
+        arrs = [a for a in args if isinstance(a, np.ndarray)]
+        ints = [a for a in list(args) + list(kw.values()) if isinstance(a, (int, np.integer)) and not isinstance(a, bool)]
+        standard = len(args) == 3 and not kw and len(arrs) == 2 and len(ints) == 1
+        t0 = np.array(arrs[0], dtype=float, copy=True) if len(arrs) >= 2 else None
+        r0 = np.array(arrs[1], dtype=float, copy=True) if len(arrs) >= 2 else None
+        n = int(ints[-1]) if ints else None
+        out = self.inner(*args, **kw)
         c = rctx.get()
-        t1, r1 = np.array(out[0], dtype=float, copy=True), np.array(out[1], dtype=float, copy=True)
+        outs = [o for o in out if isinstance(o, np.ndarray)] if isinstance(out, (tuple, list)) else []
+        t1 = np.array(outs[0], dtype=float, copy=True) if len(outs) >= 2 else None
+        r1 = np.array(outs[1], dtype=float, copy=True) if len(outs) >= 2 else None
         err = None
         self.n += 1
-        if self.n % 5 == 0 and np.all(np.isfinite(t1)) and np.all(np.isfinite(r1)):
+        if not standard:
+            c.stats["warn_leapfrog_signature_not_the_pinned_one"] += 1
+        if standard and t1 is not None and self.n % 5 == 0 and np.all(np.isfinite(t1)) and np.all(np.isfinite(r1)):
             was = c.record
             c.record = False
             try:
@@ -343,8 +356,111 @@ class LeapfrogRecorder:
             err = max(float(np.max(np.abs(np.asarray(tb) - t0))) / scale,
                       float(np.max(np.abs(np.asarray(rb) + r0))) / (1.0 + float(np.max(np.abs(r0))) + float(np.max(np.abs(r1)))))
         eps = getattr(getattr(self.chain, "ES", None), "epsilon", None)
-        self.calls.append((c.seq, t0, r0, int(n), t1, r1, err, None if eps is None else float(eps)))
+        self.calls.append((c.seq, t0, r0, n, t1, r1, err, None if eps is None else float(eps)))
         return out
+
+
+class _ProbeDone(BaseException):
+    """Ends the twin's step of `reverse_step_probe` at its first posterior evaluation."""
+
+
+def reverse_step_probe(V, stats, h, pre, ev, call):
+    """"Proposals are reversible", decided through the public API only (no assumption about internal method signatures):
+    `pre` is a deep copy of the chain taken before the step whose first attempt proposed (t0, r0) -> (t1, r1).  The copy
+    is handed the point t1 the way a tempering exchange hands over a point (replace_last + log-probability, through the
+    real worker loop), its generator is scripted so that it draws the momentum -r1 and the same trajectory length, and it
+    takes a step: the first point at which it evaluates the posterior must be t0."""
+    from simkit.rng import ScriptedGenerator
+
+    _, t0, r0, ns, t1, r1, _e, eps_used = call
+    if t0 is None or t1 is None or ns is None or eps_used is None or h.cfg["knobs"].get("finite_diff"):
+        return
+    if not (np.all(np.isfinite(t1)) and np.all(np.isfinite(r1))) or not np.isfinite(h.target.logpdf(t1)):
+        return
+    # the uniform that fixed the trajectory length: the only scalar uniform drawn before the first evaluation
+    us = []
+    for e in ev:
+        if e[1] == "post":
+            break
+        if e[1] == "rng" and e[2] in ("random", "uniform"):
+            if not _scalar(e[4]):
+                return
+            us.append(float(e[4]))
+    if len(us) != 1:
+        stats["reverse_step_probe_not_interpretable"] += 1
+        return
+    im_ = h.cfg["knobs"].get("inverse_mass")
+    imax_ = float(np.max(np.abs(np.asarray(im_, dtype=float)))) if im_ is not None else 1.0
+    excursion = eps_used * max(1, ns) * imax_ * float(np.max(np.abs(r0)))
+    tame = _stiffness(h, eps_used) <= 3.0 and float(np.max(np.abs(r1))) <= 100.0 * (1.0 + float(np.max(np.abs(r0)))) and \
+        excursion <= 1e6 * (1.0 + float(np.max(np.abs(t0))))
+    if not tame:
+        return
+    c = rctx.get()
+    d = h.d
+    was, mons = c.record, list(c.monitors)
+    c.record = False
+    seen = []
+
+    def first_eval(kind, tag, th):
+        if kind == "post":
+            seen.append(np.array(th, dtype=float, copy=True))
+            raise _ProbeDone()
+
+    try:
+        mass = pre.mass
+        o_ = np.asarray(mass.sample_momentum(ScriptedGenerator(normals=[0.0] * d)), dtype=float).reshape(-1)
+        A = np.zeros((d, d))
+        for i in range(d):
+            e_ = [0.0] * d
+            e_[i] = 1.0
+            A[:, i] = np.asarray(mass.sample_momentum(ScriptedGenerator(normals=e_)), dtype=float).reshape(-1) - o_
+        z = np.linalg.solve(A, -r1 - o_)
+        eps_pre = float(pre.ES.epsilon)
+    except Exception:  # noqa - momenta drawn another way: the probe cannot be set up
+        c.record = was
+        stats["reverse_step_probe_not_interpretable"] += 1
+        return
+    if eps_pre != eps_used:
+        c.record = was
+        return
+    try:
+        import copy as _copy
+
+        h2 = _copy.copy(h)
+        h2.chain = pre
+        lc.op_exchange(h2, t1.copy(), h.target.logpdf(t1))
+        pre.rng = ScriptedGenerator(normals=[float(v) for v in z], uniforms=[us[0]] + [0.5] * 64)
+        c.monitors.append(first_eval)
+        try:
+            pre.take_step()
+        except _ProbeDone:
+            pass
+    except LibRaised:
+        stats["reverse_step_probe_not_interpretable"] += 1
+        return
+    except Exception:  # noqa - e.g. the scripted generator lacks a method the step uses
+        stats["reverse_step_probe_not_interpretable"] += 1
+        return
+    finally:
+        c.monitors[:] = mons
+        c.record = was
+    if not seen:
+        stats["reverse_step_probe_not_interpretable"] += 1
+        return
+    stats["hmc_reverse_steps_through_public_api"] += 1
+    tb = seen[0]
+    scale = 1.0 + float(np.max(np.abs(t0))) + float(np.max(np.abs(t1)))
+    err = float(np.max(np.abs(tb - t0))) / scale
+    stiff = _stiffness(h, eps_used) ** max(1, ns)
+    if err > 1e-6 * max(1.0, stiff):
+        bounded = h.cfg["bounds"] is not None
+        matrix = np.ndim(h.cfg["knobs"].get("inverse_mass")) == 2
+        _viol(V, "A.reversible", "hmc: proposal is not reversible: a step from t=%r with momentum %r proposed t=%r (end momentum %r, %d "
+              "leapfrog steps); a chain handed that point (replace_last, as in a tempering exchange) and drawing the negated end "
+              "momentum and the same trajectory length proposes %r, %.3g (relative) away from where the first step started"
+              % (t0.tolist(), r0.tolist(), t1.tolist(), r1.tolist(), ns, tb.tolist(), err),
+              sampler="hmc-bounded-matrix-mass" if (bounded and matrix) else "hmc")
 
 
 def momentum_law(V, stats, h):
@@ -400,7 +516,7 @@ def refine_hmc(V, stats, h, ev, w, rec, seq0):
     for n, (k, cl) in enumerate(zip(posts, calls)):
         _, t0, r0, ns, t1, r1, _e, eps_used = cl
         y, val = ev[k][2], ev[k][3]
-        if not np.array_equal(y, t1):
+        if t0 is None or t1 is None or ns is None or not np.array_equal(y, t1):
             stats["warn_uninterpretable_hmc"] += 1
             return None
         if not np.array_equal(t0, w):
@@ -670,6 +786,14 @@ def execute(sc):
                 continue
             for _ in range(op[1]):
                 seq0 = c.seq
+                pre = None
+                if rec is not None and stats["steps_refined"] % 4 == 1:
+                    import copy as _copy
+
+                    try:
+                        pre = _copy.deepcopy(h.chain)
+                    except Exception:  # noqa - a chain that cannot be copied: no probe
+                        pre = None
                 try:
                     if kind == "ensemble":
                         lc.op_advance(h, 1)
@@ -711,6 +835,10 @@ def execute(sc):
                     nw = refine_metropolis(V, stats, h, ev, w)
                 else:
                     nw = refine_hmc(V, stats, h, ev, w, rec, seq0) if rec is not None else None
+                    if pre is not None and not V and rec is not None and rec.calls:
+                        first = [cl for cl in rec.calls if cl[0] >= seq0]
+                        if first:
+                            reverse_step_probe(V, stats, h, pre, ev, first[0])
                 S, _ = h.rows()
                 if nw is not None and not V and not np.array_equal(S[-1], nw):
                     _viol(V, "A.stored", "%s: the stored sample %r is not the last accepted point %r" % (kind, S[-1].tolist(), nw.tolist()))
